@@ -31,6 +31,7 @@ func (c *Ctx) codeRedeemFns() []*ssa.Function {
 }
 
 func runC01(c *Ctx) {
+	defer checkFactoriesWireCollaborators(c, "C01.R7")
 	defer checkCanHandleExact(c, "C01.R6")
 	defer checkStoreKeyed(c, "C01.R5", storeRow{meth: "CreateAuthorizeCodeSession", table: "AuthorizeCodes", op: "create", key: 2}, storeRow{meth: "GetAuthorizeCodeSession", table: "AuthorizeCodes", op: "get", key: 2}, storeRow{meth: "InvalidateAuthorizeCodeSession", table: "AuthorizeCodes", op: "invalidate", key: 2})
 	c01R1(c)
